@@ -6,7 +6,7 @@ TECH = "symbolic execution of the real code's go/ssa (own executor /verif/symx) 
 NOTE_COMMON = ("Trusted: go/ssa + go/types (x/tools v0.50.0, go1.26.8) translate the source faithfully; cvc5 answers are correct (thorough tier cross-checks the query transcript with z3); "
                "the executor's models of the stubbed library calls listed in evidence.stubs_hit. Every run validates sampled paths by executing the solver's model natively and comparing observations. ")
 FAM = ("Grammars are an enumerated family regenerated on every run with the peg built from /repo's working tree (every well-formed expression of size <= 3 plus a seeded sample of size 4 (quick) / every one of size <= 4 plus a seeded sample of 2500 of size 5 (thorough) over a small leaf set, "
-       "24 terminal kinds in 18 contexts, ~60 curated shapes, an end-of-input lookahead layer, multi-rule outlines: ~730 grammars quick, ~5700 thorough); the solver quantifies over ALL inputs of length 0..N "
+       "24 terminal kinds in 18 contexts, ~70 curated shapes, an end-of-input lookahead layer, multi-rule outlines: ~740 grammars quick, ~5700 thorough); the solver quantifies over ALL inputs of length 0..N "
        "(N=5 quick, 6-7 thorough; one more on the curated shapes), each rune any Unicode scalar value, and over the predicate switches. A long-input layer (11 loop/recursion grammars, one with 260 rules) adds inputs of "
        "17..260 runes (thorough: up to 1000, and 65535/65536 where the token count is constant) that are a concrete filler except for two arbitrary runes. ")
 ORACLE = "Oracle: an independent ~300-line transcription of PEG semantics (vhlib/ref) executed symbolically on the same input. "
